@@ -1,9 +1,11 @@
 package main
 
 import (
+	"bytes"
 	"encoding/json"
 	"fmt"
 	"math/rand"
+	"sync"
 	"time"
 
 	"github.com/go-logr/logr"
@@ -212,12 +214,12 @@ func c04CaseVia(ctx *Ctx, s1, s2 *TableSpec, cfg1, cfg2 IngestCfg, via *c04Via, 
 		return db
 	}
 	in0 := c04Input{S1: s1, S2: s2, Via: via}
-	sum1, err := IngestCSV(at(via != nil && via.Recv1), s1.CSV(0), s1.PK, cfg1)
+	sum1, err := IngestCSV(c04Reordering(at(via != nil && via.Recv1), s1, cfg1), s1.CSV(0), s1.PK, cfg1)
 	if err != nil {
 		ctx.Emit("diff", in0, Err("ingest1"), false, "ingest-error")
 		return
 	}
-	sum2, err := IngestCSV(at(via != nil && via.Recv2), s2.CSV(0), s2.PK, cfg2)
+	sum2, err := IngestCSV(c04Reordering(at(via != nil && via.Recv2), s2, cfg2), s2.CSV(0), s2.PK, cfg2)
 	if err != nil {
 		ctx.Emit("diff", in0, Err("ingest2"), false, "ingest-error")
 		return
@@ -388,6 +390,17 @@ func runC04Received(ctx *Ctx) {
 
 func runC04(ctx *Ctx) {
 	r := ctx.R
+	// in addition to the case of this index (each from a random stream of its own, so that the case of
+	// the index is what it was): diffs on a store that fails, pairs whose block edges carry duplicated
+	// keys, and pairs with a side of zero rows
+	switch ctx.Idx % 12 {
+	case 3:
+		defer c04RunFault(ctx)
+	case 7:
+		defer c04RunEdgeDup(ctx)
+	case 9:
+		defer c04RunZeroRows(ctx)
+	}
 	if ctx.Idx%12 == 11 {
 		runC04CLI(ctx)
 		return
@@ -433,10 +446,420 @@ func corpusC04(ctx *Ctx, op string, raw json.RawMessage) {
 	if in.S1 == nil || in.S2 == nil {
 		return
 	}
+	if op == "diff-fault" {
+		c04CorpusFault(ctx, raw)
+		return
+	}
 	if op == "diff-cli" {
 		ci := &c04CLIInput{S1: in.S1, S2: in.S2, New: hxRows(in.S1.Rows), Old: hxRows(in.S2.Rows)}
 		ctx.Emit("diff-cli", ci, c04CLIRun(in.S1, in.S2), true, "cli", "corpus")
 		return
 	}
 	c04CaseVia(ctx, in.S1, in.S2, IngestCfg{}, IngestCfg{}, in.Via, "corpus")
+}
+
+// c04ReorderStore makes the workers of a multi-worker ingest finish out of offset order: the first
+// block written is held back until another worker has written a block index (or, when no other worker
+// ever does, for a short while), so the block that was cut first is the last to be recorded. The
+// stored table must not depend on that order.
+type c04ReorderStore struct {
+	objects.Store
+	mu      sync.Mutex
+	blocks  int
+	other   chan struct{}
+	otherOn sync.Once
+}
+
+func (s *c04ReorderStore) Set(k, v []byte) error {
+	switch {
+	case bytes.HasPrefix(k, []byte("blk/")):
+		s.mu.Lock()
+		n := s.blocks
+		s.blocks++
+		s.mu.Unlock()
+		if n == 0 {
+			select {
+			case <-s.other:
+				time.Sleep(200 * time.Microsecond)
+			case <-time.After(25 * time.Millisecond):
+			}
+		}
+	case bytes.HasPrefix(k, []byte("blkidx/")):
+		err := s.Store.Set(k, v)
+		s.otherOn.Do(func() { close(s.other) })
+		return err
+	}
+	return s.Store.Set(k, v)
+}
+
+// c04Reordering wraps the store for the ingest of a table of more than one block by more than one worker.
+func c04Reordering(db objects.Store, s *TableSpec, cfg IngestCfg) objects.Store {
+	if cfg.Workers < 2 || len(s.Rows) <= 255 {
+		return db
+	}
+	return &c04ReorderStore{Store: db, other: make(chan struct{})}
+}
+
+// ---- additional case kinds ------------------------------------------------------------------------
+
+// c04Rand: the random stream of an additional case of this index
+func c04Rand(ctx *Ctx, salt int64) *rand.Rand {
+	return rand.New(rand.NewSource(ctx.Seed*1000003 + int64(ctx.Idx) + salt))
+}
+
+// c04EdgeDupPair: a table whose keys are duplicated around its block edges (the copies differ in a
+// non-key cell; the sorter keeps one row per key, so a dropped copy may be the first row seen after a
+// block was cut, the last one before, or lie anywhere near), and a second table that starts at, just
+// before or just after such a key - so that its first block begins exactly where a block of the first
+// table ends or begins. shape: 0 single key column, 1 composite key, 2 no key (duplicates are then
+// whole rows).
+func c04EdgeDupPair(r *rand.Rand, k int, thorough bool) (*TableSpec, *TableSpec, []string) {
+	const bs = 255
+	shape := (k / 4) % 3
+	maxBlocks := 2
+	if thorough {
+		maxBlocks = 4
+	}
+	nb := 1 + r.Intn(maxBlocks)
+	n := nb*bs + 1 + r.Intn(bs-1) // nb full blocks and a partial one
+	cols, pk := []string{"k", "v"}, []string{"k"}
+	if shape == 1 {
+		cols, pk = []string{"v", "g", "k"}, []string{"g", "k"}
+	} else if shape == 2 {
+		cols, pk = []string{"k", "v"}, nil
+	}
+	mkRow := func(i int, v string) []string {
+		switch shape {
+		case 1:
+			return []string{v, fmt.Sprintf("r%d", i/200), fmt.Sprintf("%05d", i)}
+		default:
+			return []string{fmt.Sprintf("%05d", i), v}
+		}
+	}
+	// ranks (0-based, in key order) of the keys that get copies: for every block edge e = b*255 one of
+	// e-2, e-1 (the last key of a block), e (the first key of the next), e+1; k decides which so that every
+	// offset comes up over the indices, and the other edges draw theirs
+	a := &TableSpec{Columns: cols, PK: pk}
+	dups := map[int]int{}
+	for b := 1; b <= nb; b++ {
+		off := []int{-1, 0, -2, 1}[k%4]
+		if b > 1 {
+			off = []int{-1, 0, -2, 1}[r.Intn(4)]
+		}
+		dups[b*bs+off] = 1 + r.Intn(2)
+	}
+	for _, i := range r.Perm(n) {
+		a.Rows = append(a.Rows, mkRow(i, "x"))
+	}
+	for i, c := range dups {
+		for j := 0; j < c; j++ {
+			v := fmt.Sprintf("dup%d", j)
+			if shape == 2 {
+				v = "x" // without a key a duplicate is the same row again
+			}
+			pos := r.Intn(len(a.Rows) + 1)
+			a.Rows = append(a.Rows[:pos], append([][]string{mkRow(i, v)}, a.Rows[pos:]...)...)
+		}
+	}
+	// the other table: the rows from a start rank near a block edge of the first table onwards, a few of
+	// them modified, and (every other time) a sparse prefix below
+	e := (1 + r.Intn(nb)) * bs
+	start := e + []int{-1, 0, -2, 1}[(k+k/12)%4]
+	sparse := r.Intn(2) == 0
+	b := &TableSpec{Columns: cols, PK: pk}
+	for _, i := range r.Perm(n) {
+		if i < start && !(sparse && i%41 == 7) {
+			continue
+		}
+		v := "x"
+		if i%89 == 5 && shape != 2 {
+			v = "y"
+		}
+		b.Rows = append(b.Rows, mkRow(i, v))
+	}
+	tags := []string{"mode=edge-dup", fmt.Sprintf("edge-dup-shape=%d", shape)}
+	if r.Intn(2) == 0 {
+		return b, a, tags
+	}
+	return a, b, tags
+}
+
+func c04RunEdgeDup(ctx *Ctx) {
+	r := c04Rand(ctx, 0x65646765)
+	s1, s2, tags := c04EdgeDupPair(r, ctx.Idx/12, ctx.Thorough())
+	cfg := IngestCfg{Workers: 1 + r.Intn(4)}
+	if r.Intn(3) == 0 {
+		cfg.RunSize = uint64(200 + r.Intn(4000))
+	}
+	c04Case(ctx, s1, s2, cfg, cfg, tags...)
+}
+
+// c04RunZeroRows: one side is a header-only table (zero rows, hence no block and an empty table
+// index); the other has 1 row .. several blocks. Which side is empty alternates with the index.
+func c04RunZeroRows(ctx *Ctx) {
+	r := c04Rand(ctx, 0x7a65726f)
+	k := ctx.Idx / 12
+	maxBlocks := 2
+	if ctx.Thorough() {
+		maxBlocks = 4
+	}
+	nCols := 1 + r.Intn(3)
+	pk := genPK(r, nCols)
+	n := 1 + genRowCount(r, maxBlocks)
+	if k%4 >= 2 {
+		n = 1 + r.Intn(6)
+	}
+	full := GenTable(r, nCols, n, pk, 0)
+	empty := &TableSpec{Columns: full.Columns, PK: full.PK}
+	s1, s2 := full, empty
+	if k%2 == 1 {
+		s1, s2 = empty, full
+	}
+	c04Case(ctx, s1, s2, IngestCfg{}, IngestCfg{}, "mode=zero-rows-side")
+}
+
+// ---- diffs on a store that fails -------------------------------------------------------------------
+
+// c04FaultStore fails reads of the store the differ works on.
+//   mode "count": no fault; the keys read are recorded
+//   mode "from":  read number K (0-based) and every later one fail (the store went away)
+//   mode "once":  read number K alone fails (a transient error)
+//   mode "lost":  every read of the key Key fails with ErrKeyNotFound (an object that was lost)
+type c04FaultStore struct {
+	objects.Store
+	mu    sync.Mutex
+	mode  string
+	k     int
+	key   string
+	reads int
+	keys  []string
+	hit   bool
+}
+
+func (s *c04FaultStore) Get(key []byte) ([]byte, error) {
+	s.mu.Lock()
+	i := s.reads
+	s.reads++
+	var err error
+	switch s.mode {
+	case "count":
+		s.keys = append(s.keys, string(key))
+	case "from":
+		if i >= s.k {
+			err = fmt.Errorf("injected read failure")
+		}
+	case "once":
+		if i == s.k {
+			err = fmt.Errorf("injected read failure")
+		}
+	case "lost":
+		if string(key) == s.key {
+			err = objects.ErrKeyNotFound
+		}
+	}
+	if err != nil {
+		s.hit = true
+	}
+	s.mu.Unlock()
+	if err != nil {
+		return nil, err
+	}
+	return s.Store.Get(key)
+}
+
+type c04FaultInput struct {
+	T1 *TableDump `json:"t1,omitempty"`
+	T2 *TableDump `json:"t2,omitempty"`
+	S1 *TableSpec `json:"s1,omitempty"`
+	S2 *TableSpec `json:"s2,omitempty"`
+	// Mode: "from" | "once" | "lost" (see c04FaultStore); the fault points are every read (every
+	// distinct key read) of the clean diff of the pair, at most c04MaxFaultPoints of them, evenly spread
+	// and always including the last
+	Mode string `json:"mode"`
+}
+
+type c04FaultRun struct {
+	// K: the failing read (from/once) or the position, among the distinct keys in the order the clean
+	// diff first reads them, of the lost key
+	K int `json:"k"`
+	// Hit: the store did return the injected error
+	Hit bool `json:"hit"`
+	// Error: the differ reported an error on its error channel
+	Error  bool     `json:"error"`
+	Events []diffEv `json:"events"`
+}
+
+type c04FaultResult struct {
+	Reads int           `json:"reads"` // store reads of the clean diff
+	Clean []diffEv      `json:"clean"` // its events
+	Runs  []c04FaultRun `json:"runs"`
+}
+
+const c04MaxFaultPoints = 8
+
+// c04DiffOn runs the differ on db for both tables (tables and table indices are handed in, as every
+// caller of DiffTables does) and drains it the way callers do: the diff channel to its end, then the
+// error channel.
+func c04DiffOn(db objects.Store, tbl1, tbl2 *objects.Table, idx1, idx2 [][]string) (evs []diffEv, reported bool, hung bool) {
+	errCh := make(chan error, 10)
+	ch, _ := diff.DiffTables(db, db, tbl1, tbl2, idx1, idx2, errCh, logr.Discard())
+	evs = []diffEv{}
+	timeout := hangAfter(60 * time.Second)
+	for {
+		select {
+		case d, ok := <-ch:
+			if !ok {
+				select {
+				case err := <-errCh:
+					reported = err != nil
+				default:
+				}
+				return
+			}
+			evs = append(evs, diffEv{PK: hx(d.PK), Sum: optHex(d.Sum), Off: d.Offset, OldSum: optHex(d.OldSum), OldOff: d.OldOffset})
+		case <-timeout:
+			return evs, false, true
+		}
+	}
+}
+
+func c04FaultPoints(n int) []int {
+	if n <= c04MaxFaultPoints {
+		ks := make([]int, n)
+		for i := range ks {
+			ks[i] = i
+		}
+		return ks
+	}
+	ks := []int{}
+	for i := 0; i < c04MaxFaultPoints; i++ {
+		ks = append(ks, i*(n-1)/(c04MaxFaultPoints-1))
+	}
+	return ks
+}
+
+func c04FaultCase(ctx *Ctx, s1, s2 *TableSpec, mode string, tags ...string) {
+	in0 := &c04FaultInput{S1: s1, S2: s2, Mode: mode}
+	if mode != "from" && mode != "once" && mode != "lost" {
+		return
+	}
+	db := NewMemStore()
+	sum1, err := IngestCSV(db, s1.CSV(0), s1.PK, IngestCfg{})
+	if err != nil {
+		ctx.Emit("diff-fault", in0, Err("ingest1"), false, "ingest-error")
+		return
+	}
+	sum2, err := IngestCSV(db, s2.CSV(0), s2.PK, IngestCfg{})
+	if err != nil {
+		ctx.Emit("diff-fault", in0, Err("ingest2"), false, "ingest-error")
+		return
+	}
+	d1, err1 := DumpTable(db, sum1, true)
+	d2, err2 := DumpTable(db, sum2, true)
+	if err1 != nil || err2 != nil {
+		ctx.Emit("diff-fault", in0, Err("dump"), false, "dump-error")
+		return
+	}
+	in := &c04FaultInput{T1: d1, T2: d2, S1: s1, S2: s2, Mode: mode}
+	secondPass := false
+	res := Guard(func() Res {
+		tbl1, err := objects.GetTable(db, sum1)
+		if err != nil {
+			return Err("gettable")
+		}
+		tbl2, err := objects.GetTable(db, sum2)
+		if err != nil {
+			return Err("gettable")
+		}
+		idx1, err := objects.GetTableIndex(db, sum1)
+		if err != nil {
+			return Err("gettableindex")
+		}
+		idx2, err := objects.GetTableIndex(db, sum2)
+		if err != nil {
+			return Err("gettableindex")
+		}
+		clean := &c04FaultStore{Store: db, mode: "count"}
+		evs, reported, hung := c04DiffOn(clean, tbl1, tbl2, idx1, idx2)
+		if hung {
+			return Err("hang")
+		}
+		if reported {
+			return Err("differ-error")
+		}
+		out := &c04FaultResult{Reads: clean.reads, Clean: evs, Runs: []c04FaultRun{}}
+		distinct := []string{}
+		seen := map[string]bool{}
+		for _, k := range clean.keys {
+			if !seen[k] {
+				seen[k] = true
+				distinct = append(distinct, k)
+			}
+		}
+		n := clean.reads
+		if mode == "lost" {
+			n = len(distinct)
+		}
+		for _, k := range c04FaultPoints(n) {
+			fs := &c04FaultStore{Store: db, mode: mode, k: k}
+			if mode == "lost" {
+				fs.key = distinct[k]
+			}
+			evs, reported, hung := c04DiffOn(fs, tbl1, tbl2, idx1, idx2)
+			if hung {
+				return Err("hang")
+			}
+			if reported && len(evs) > 0 && evs[len(evs)-1].Sum == nil {
+				secondPass = true
+			}
+			out.Runs = append(out.Runs, c04FaultRun{K: k, Hit: fs.hit, Error: reported, Events: evs})
+		}
+		return Ok(out)
+	})
+	tags = append(tags, "store-fault="+mode, fmt.Sprintf("blocks=%d/%d", len(d1.Blocks), len(d2.Blocks)))
+	if secondPass {
+		tags = append(tags, "fault-after-removed-rows-were-reported")
+	}
+	ctx.Emit("diff-fault", in, res, len(d1.Blocks)+len(d2.Blocks) >= 2, tags...)
+}
+
+// c04RunFault: the pairs of the other cases (window shapes, a table and its mutation), diffed on a
+// store that fails; the fault mode rotates with the index.
+func c04RunFault(ctx *Ctx) {
+	r := c04Rand(ctx, 0x6661756c)
+	k := ctx.Idx / 12
+	mode := []string{"from", "lost", "once"}[k%3]
+	var s1, s2 *TableSpec
+	var tag string
+	if (k/3)%2 == 0 {
+		variant := (k / 6) % 3
+		s1, s2 = windowShapes(r, variant)
+		tag = fmt.Sprintf("mode=window-shapes-%d", variant)
+	} else {
+		maxBlocks := 2
+		if ctx.Thorough() {
+			maxBlocks = 4
+		}
+		nCols := 1 + r.Intn(3)
+		pk := genPK(r, nCols)
+		s1 = GenTable(r, nCols, 1+genRowCount(r, maxBlocks), pk, 0)
+		m := []int{2, 3, 4, 5}[r.Intn(4)]
+		s2 = mutateTable(r, s1, m)
+		if r.Intn(2) == 0 {
+			s1, s2 = s2, s1
+		}
+		tag = fmt.Sprintf("mode=%d", m)
+	}
+	c04FaultCase(ctx, s1, s2, mode, tag)
+}
+
+func c04CorpusFault(ctx *Ctx, raw json.RawMessage) {
+	var in c04FaultInput
+	if err := json.Unmarshal(raw, &in); err != nil {
+		panic(err)
+	}
+	if in.S1 == nil || in.S2 == nil {
+		return
+	}
+	c04FaultCase(ctx, in.S1, in.S2, in.Mode, "corpus")
 }
